@@ -76,6 +76,7 @@ def instantiate(formulas, rounds=3, max_terms=16):
             new.append(z3.Implies(a < 0, exp_r(a) < 1))
             new.append(z3.Implies(a > 0, exp_r(a) > 1))
             new.append(exp_r(a) >= 1 + a)
+            new.append(z3.Implies(a < 1, exp_r(a) * (1 - a) <= 1))
         for a in lg:
             k = ("l", a.get_id())
             if k in done:
